@@ -5,7 +5,7 @@
 
 enum { G_LIFE = 1, G_REG = 2, G_MSG = 4, G_SUB = 8, G_PILL = 16, G_ARM = 32, G_CTX = 64, G_BATCH = 128, G_STASH = 256, G_BECOME = 512,
        G_SRC = 1024, G_ENV = 2048, G_SYS = 4096, G_REFS = 8192, G_FAULT = 16384, G_TICK = 32768, G_ILLEGAL = 65536, G_AUTOFREE = 131072,
-       G_QUIT = 262144, G_CTXCALL = 524288, G_PRIO = 1048576, G_BCAST = 2097152, G_BUCKET = 4194304, G_READY = 8388608, G_BADPARAM = 16777216, G_EPOLLFAULT = 33554432, G_CTLFAULT = 67108864 };
+       G_QUIT = 262144, G_CTXCALL = 524288, G_PRIO = 1048576, G_BCAST = 2097152, G_BUCKET = 4194304, G_READY = 8388608, G_BADPARAM = 16777216, G_EPOLLFAULT = 33554432, G_CTLFAULT = 67108864, G_ENVX = 134217728 };
 typedef struct {
     const char *prop; int nmods; unsigned groups, rules; int maxdev;
     const char *prelude;                 /* hex ops applied at reset (not counted in depth) */
@@ -85,6 +85,8 @@ static int enabled_ops(op_t *o, int max) {
                 if (idx < 0 || ill) for (int f = 0; f < 8; f++) if (P.srcflags & (1u << f)) {
                     if (idx >= 0 && (f & 4)) continue;
                     if ((f & 5) && kd != K_FD) continue;
+                    if ((P.groups & G_ENVX) && kd >= K_SGN && kd <= K_PID) { int others = 0; for (int t = 0; t < NM; t++) if (t != s && find_src(t, kd, key) >= 0) others = 1; if (others) continue;      /* one watcher per signal/path/pid: a signal is consumed by the first reader */
+                        if (kd == K_PID && (!(f & 2) || child_dead[key])) continue; }      /* an exited process stays readable for ever: one-shot only */
                     if (kd == K_FD) { int others = 0, granted = 0; for (int t = 0; t < NM; t++) for (int i = 0; i < MAXSRC; i++) if (MD[t].src[i].present && MD[t].src[i].kind == K_FD && MD[t].src[i].key == key) { others++; granted |= MD[t].src[i].flags & 1; }
                         if (idx < 0 && others > 0) continue;      /* one user descriptor is given to one module at a time (one epoll set cannot hold it twice; two readers of one pipe race for its bytes) */
                         if (idx < 0 && ((f & 1) ? others > 0 : granted)) continue; }
@@ -125,12 +127,19 @@ static int enabled_ops(op_t *o, int max) {
     if ((P.groups & G_CTLFAULT) && dev < P.maxdev && !shim_inject_ctl_del) EMIT(O_INJECT, INJ_CTL_DEL);
     if ((P.groups & G_EPOLLFAULT) && dev < P.maxdev && CX.looping && !shim_inject_epoll_errno) { EMIT(O_INJECT, INJ_EPOLL_EINTR); EMIT(O_INJECT, INJ_EPOLL_EBADF); }
     if (P.groups & G_READY) for (int k = 0; k < NUFD; k++) if (UFD[k].open_rd && UFD[k].bytes < 2) { int used = 0; for (int t = 0; t < NM; t++) if (find_src(t, K_FD, k) >= 0) used = 1; if (used) EMIT(O_READY, k); }
+    if (P.groups & G_ENVX) {     /* external happenings, offered only when a RUNNING module watches them (an unwatched signal would kill the process) */
+        for (int kd = K_SGN; kd <= K_PID; kd++) for (int key = 0; key < 2; key++) { int w = 0, pend = 0;
+            for (int t = 0; t < NM; t++) { int i = find_src(t, kd, key); if (i >= 0 && MD[t].st == S_RUNNING) { w = 1; pend += MD[t].src[i].fired; } }
+            if (!w || pend >= 1) continue;
+            if (kd == K_PID && child_dead[key]) continue;
+            EMIT(kd == K_SGN ? O_RAISE : kd == K_PATH ? O_TOUCH : O_ENDCHILD, key); }
+    }
     if (P.groups & G_REFS) for (int i = 0; i < nret; i++) EMIT(O_RELEASE, i);
     return n;
 }
 
 static void fmt_op(op_t op, char *b, size_t cap) {
-    const char *A = op.a < NM ? MNAME[op.a] : "?", *B = op.b < NM ? MNAME[op.b] : "?";
+    const char *A = op.a < NM ? MLABEL[op.a] : "?", *B = op.b < NM ? MLABEL[op.b] : "?";
     static const char *prn[] = { "LOW", "NORM", "HIGH" }, *evn[] = { "no-eval", "eval=true", "eval=false" };
     switch (op.c) {
     case O_CTX_REG: snprintf(b, cap, "ctx_register(%s)", op.b ? "PERSIST" : "0"); break;
@@ -168,6 +177,9 @@ static void fmt_op(op_t op, char *b, size_t cap) {
     case O_ADVANCE: snprintf(b, cap, "advance(%luns)", (unsigned long)ADV[op.a & 3]); break;
     case O_INJECT: snprintf(b, cap, "inject(%s)", op.a == 0 ? (op.b == 0 ? "next pipe write -> EAGAIN" : op.b == 1 ? "2nd next pipe write -> EAGAIN" : "3rd next pipe write -> EAGAIN") : op.a == 1 ? "next epoll_wait -> EINTR" : op.a == 2 ? "next epoll_wait -> EBADF" : "next EPOLL_CTL_DEL reported as failed"); break;
     case O_RELEASE: snprintf(b, cap, "release_event(%d)", op.a); break;
+    case O_RAISE: snprintf(b, cap, "raise(signal#%d)", op.a); break;
+    case O_TOUCH: snprintf(b, cap, "create_file_in(path#%d)", op.a); break;
+    case O_ENDCHILD: snprintf(b, cap, "child_exits(pid#%d)", op.a); break;
     default: snprintf(b, cap, "op%d(%d,%d,%d)", op.c, op.a, op.b, op.d);
     }
 }
@@ -181,7 +193,7 @@ static void canon(char *b, size_t cap) {
         AP("M%d:%d%d%d%d%d%d:L%x:", s, m->present, m->st, m->extra, m->evalmode, m->startret, m->flagsidx, m->present ? m->life : 0);
         for (int k = 0; k < NCB; k++) AP("%d.%d,", m->armed[k].act, m->armed[k].arg);
         AP("s"); for (int q = 0; q < NPAT; q++) if (m->sub[q].present) AP("%d%d%d%d,", q, m->sub[q].prio, m->sub[q].oneshot, m->sub[q].upver);
-        AP("m"); for (int k = 0; k < m->nmb; k++) { msg_t *g = &MSG[m->mb[k].msg]; AP("%d.%d.%d.%d.%d.%x,", g->sender + 1, g->topic, g->sys, g->autofree, m->mb[k].optional, m->mb[k].pats); }
+        AP("m"); for (int k = 0; k < m->nmb; k++) { msg_t *g = &MSG[m->mb[k].msg]; AP("%d.%d.%d.%d.%d.%x.%d,", g->sender + 1, g->topic, g->sys, g->autofree, m->mb[k].optional, m->mb[k].pats, g->may_vanish * 2 + g->rc_neg); }
         AP("b%zu.%d.%d.%d.%d", m->batch_size, m->batch_tmo, m->batch_fired, m->ever_batched, m->batch_due != 0); AP("u%d", m->ba_unsure);
         AP("st"); for (int k = 0; k < m->nst; k++) { evrec_t *r = &EV[m->stash[k]]; AP("%d.%d,", r->kind, r->kind == 0 ? MSG[r->msg].sender + 1 : r->key); }
         AP("h"); for (int k = 0; k < m->nhs; k++) AP("%d", m->hs[k]);
@@ -190,6 +202,7 @@ static void canon(char *b, size_t cap) {
     }
     AP("T"); for (int i = 0; i < 24; i++) if (MT[i].used) AP("%d.%d.%d.%lu,", MT[i].slot, MT[i].src, MT[i].armed, MT[i].armed ? (unsigned long)(MT[i].next - shim_now_ns) : 0ul);
     AP("U"); for (int i = 0; i < NUFD; i++) AP("%d.%d,", UFD[i].open_rd, UFD[i].bytes);
+    AP("cd%d%d ", child_dead[0], child_dead[1]);
     AP("R%d I%d%d%d", nret, shim_inject_write_eagain, shim_inject_epoll_errno, shim_inject_ctl_del);
 }
 
@@ -210,7 +223,7 @@ static void check_quiescent_obligations(void) {
     for (int s = 0; s < NM; s++) { mod_t *m = &MD[s]; if (!m->present || m->st != S_RUNNING) continue;
         int haslow = 0; for (int k = 0; k < NPAT; k++) if (m->sub[k].present && m->sub[k].prio == PR_LOW) haslow = 1;
         if (m->batch_size == 0 && m->batch_tmo == 0 && !haslow && !m->ever_batched) {
-            if (ON(R_PS)) for (int k = 0; k < m->nmb; k++) if (!m->mb[k].optional && m->mb[k].kind == 0 && MSG[m->mb[k].msg].topic != T_PILL && !owed_excused(m->mb[k].msg))
+            if (ON(R_PS)) for (int k = 0; k < m->nmb; k++) if (!m->mb[k].optional && m->mb[k].kind == 0 && MSG[m->mb[k].msg].topic != T_PILL && !owed_excused(s, k))
                 vfail("PS.owed", MSG[m->mb[k].msg].sys ? "PS.owed|quiescent-sys" : "PS.owed|quiescent", "dispatch no longer delivers anything but message #%d (topic %s) owed to RUNNING module %s was never handed over",
                       m->mb[k].msg, MSG[m->mb[k].msg].topic < NTOPIC ? TOPIC[MSG[m->mb[k].msg].topic] : "-", m->name);
         } else if (ON(R_BA) && !m->ba_unsure) {
